@@ -64,6 +64,28 @@ pub enum Arith {
 }
 
 impl Arith {
+    /// fewest parentheses: `*` `/` bind tighter than `+` `-`, all left-associative
+    pub fn text_min(&self) -> String {
+        fn prec(a: &Arith) -> u8 {
+            match a {
+                Arith::Add(..) | Arith::Sub(..) => 1,
+                Arith::Mul(..) | Arith::Div(..) => 2,
+                _ => 3,
+            }
+        }
+        let bin = |l: &Arith, op: &str, r: &Arith, p: u8| {
+            let lt = if prec(l) < p { format!("({})", l.text_min()) } else { l.text_min() };
+            let rt = if prec(r) <= p { format!("({})", r.text_min()) } else { r.text_min() };
+            format!("{} {} {}", lt, op, rt)
+        };
+        match self {
+            Arith::Var(_) | Arith::Num(_) => self.text(),
+            Arith::Add(l, r) => bin(l, "+", r, 1),
+            Arith::Sub(l, r) => bin(l, "-", r, 1),
+            Arith::Mul(l, r) => bin(l, "*", r, 2),
+            Arith::Div(l, r) => bin(l, "/", r, 2),
+        }
+    }
     pub fn text(&self) -> String {
         match self {
             Arith::Var(v) => format!("?{}", v),
@@ -128,7 +150,8 @@ impl Expr {
             }
         }
         match self {
-            Expr::Cmp(..) | Expr::ArithCmp(..) => self.text(),
+            Expr::Cmp(..) => self.text(),
+            Expr::ArithCmp(a, op, b) => format!("{} {} {}", a.text_min(), op, b.text_min()),
             Expr::And(a, b) => format!("{} && {}", wrap(a, 1), wrap(b, 2)),
             Expr::Or(a, b) => format!("{} || {}", wrap(a, 0), wrap(b, 1)),
             Expr::Not(a) => match **a {
